@@ -301,3 +301,93 @@ z = a.mk().attr
         "e.py": "class E:\n    attr: int = 0\n    def m(self) -> None:\n        return 1\n",
     },
 }
+
+
+# ------------------------------------------------------------------------------------------------
+# Parallel vs sequential over the corpus (C07): every multi-file single-step case of check-*.test is built with
+# `-n 2` (free-running schedule) and sequentially with the same (native) parser; the diagnostics must agree, and a
+# sequential warm run on the cache the parallel build left (after a neutral edit of main) must agree with a cold run.
+ONLY_ONCE_NOTE = "note: See https://mypy.readthedocs.io/en/stable/running_mypy.html#missing-imports"
+
+
+def _norm_par(res: dict[str, Any]) -> tuple[Any, ...]:
+    """norm(), with the only_once missing-imports note made location-free: which import error it follows depends on
+    the processing order, a known finding recorded under C02 / C10, not a statement about parallel builds."""
+    msgs = [(ONLY_ONCE_NOTE if ONLY_ONCE_NOTE in m else m) for m in res["messages"]]
+    per: dict[str, list[str]] = {}
+    for m in msgs:
+        per.setdefault(m.split(":", 1)[0], []).append(m)
+    # per file as a multiset: within an import cycle the two builds may report a file's messages in another order
+    return (res["status"], tuple(sorted((f, tuple(sorted(v))) for f, v in per.items())))
+
+
+def parallel_case(case: dict[str, Any], root: str, n: int = 2) -> dict[str, Any]:
+    from harness import par
+    out: dict[str, Any] = {"name": case["name"], "steps": 0, "violation": None, "skipped": None, "nontrivial": False, "machinery": 0}
+    text = case["main"]
+    pyfiles = [k for k in case["files"] if k.endswith(".py")]
+    if len(pyfiles) < 1:
+        out["skipped"] = "single module"
+        return out
+    if case["name"].endswith(("-skip", "-xfail", "-posix", "-windows", "_no_parallel")) or "# cmd" in text or "plugin" in text or any("plugin" in k for k in case["files"]) \
+            or any(re.search(r"\.\d+$", k) for k in list(case["files"]) + case["deletes"]):
+        out["skipped"] = "skipped by the repository / unsupported / multi-step"
+        return out
+    flags = re.search(r"# flags: (.*)$", text, flags=re.M)
+    flag_list = [x for x in (flags.group(1).split() if flags else []) if x not in ("-v", "-vv", "--verbose")]
+    flag_list += ["--no-site-packages", "--no-error-summary"]
+    if any(x.startswith(("--cache-dir", "--config-file", "--no-incremental", "--incremental", "--sqlite", "--no-sqlite", "--cache-fine", "--num-workers",
+                         "-n", "--junit", "--shadow-file", "--no-native-parser", "--bazel", "--skip")) or x.endswith("-report") for x in flag_list):
+        out["skipped"] = "flags move the cache / config / parser"
+        return out
+    src, cache = os.path.join(root, "src"), os.path.join(root, "cache")
+    os.makedirs(src, exist_ok=True)
+    for fx, name in ((case["builtins"], "builtins.pyi"), (case["typing"], "typing.pyi")):
+        if fx:
+            shutil.copy(os.path.join(REPO, "test-data", "unit", fx), os.path.join(src, name))
+    tick = 1000
+
+    def put(rel: str, txt: str) -> None:
+        nonlocal tick
+        p = os.path.join(src, rel)
+        os.makedirs(os.path.dirname(p) or src, exist_ok=True)
+        with open(p, "w", encoding="utf8") as f:
+            f.write(txt)
+        tick += 1
+        t = 1_000_000 + tick * 10
+        os.utime(p, (t, t))
+
+    put("main", text)
+    for k, v in case["files"].items():
+        put(k, v)
+    sources = [("main", "__main__")]
+    seq_kw = dict(sources=sources, user_mods="*", record=False, extra_opts={"cli_args_nosrc": flag_list, "post_set": {"native_parser": True, "local_partial_types": True}})
+    ref = W.run_build(src, cache_dir=None, **seq_kw)
+    if ref.get("crash") or ref["status"] in (3, 4):
+        out["skipped"] = "harness cannot run this case sequentially with the native parser: " + (ref.get("crash") or "")[-200:]
+        return out
+    p = par.run_parallel_flags(src, flags=flag_list, sources=sources, n=n, cache_dir=cache)
+    out["steps"] += 1
+    if p.get("machinery"):
+        out["machinery"] += 1
+        out["skipped"] = "workers could not be started"
+        return out
+    if p.get("crash") or _norm_par(p) != _norm_par(ref):
+        pm, rm = set(p["messages"]), set(ref["messages"])
+        out["violation"] = "-n %d: status %s vs sequential %s; only parallel %r ; only sequential %r %s" % (
+            n, p["status"], ref["status"], sorted(pm - rm)[:3], sorted(rm - pm)[:3], (p.get("crash") or "")[-300:])
+        out["label"] = "parallel"
+        return out
+    if p["messages"]:
+        out["nontrivial"] = True
+    # the cache the parallel build left: main re-analysed against it, sequentially
+    put("main", text + ("" if text.endswith("\n") else "\n") + "# neutral edit\n")
+    ref2 = W.run_build(src, cache_dir=None, **seq_kw)
+    w = W.run_build(src, cache_dir=cache, **seq_kw)
+    out["steps"] += 1
+    if w.get("crash") or _norm_par(w) != _norm_par(ref2):
+        wm, rm = set(w["messages"]), set(ref2["messages"])
+        out["violation"] = "sequential warm run on the cache a -n %d build left: status %s vs cold %s; only warm %r ; only cold %r %s" % (
+            n, w["status"], ref2["status"], sorted(wm - rm)[:3], sorted(rm - wm)[:3], (w.get("crash") or "")[-300:])
+        out["label"] = "warm-after-parallel"
+    return out
